@@ -90,6 +90,11 @@ CHECKS = {
         technique='CrossHair (z3) differential execution of malt.convert(...)(f) vs f on programs with one injected failing statement; inputs chosen by z3 select which statement fails and in which iteration; traceback of the original is the location oracle',
         text='For every enumerated program with an injected failure (11 failure kinds, any function/nesting position) and all inputs within the bounds: same outcome kind, exception type per the documented re-creation rules (three-way rule), original message contained, and ag_error_metadata.translated_stack restricted to the user file equals the original traceback user frames (innermost first, one per separately converted function). Unit harness: _stack_trace_inside_mapped_code on symbolic frame lists (<=4 frames).',
         note='The static claim about every source-map entry is validated only through failing executions. Failures inside try bodies with handlers in the same function are not generated.'),
+    'C18': dict(
+        level='translation_validation', engine='xh-diff', design='DESIGN.md §2 C18',
+        technique='CrossHair (z3) differential execution of the compiled output of the real anf.transform (6 configurations) vs. the input function; tracer log order = evaluation order',
+        text='For every enumerated program with tracer calls in every operand position (call args, keywords, starred, subscripts, slices, binary/unary/compare operands, displays, return/raise operands, if tests, for iterables, with items) and every input within the bounds, the ANF output returns the same value with the same tracer log; rejected programs contain a documented lazy construct. Concrete side conditions: positions the configuration asks to be named hold trivial nodes; temporaries assigned once.',
+        note='Program family is flat (effectful operands are direct tracer calls with leaf arguments) so the two listed evaluation-order findings cannot apply; those are re-established by witnesses. tmp_1xxx user identifiers outside.'),
 }
 
 NOT_APPLICABLE = {
